@@ -266,11 +266,15 @@ func handleShareMemoryByMemFd(s *Session, h header) error {
 	//4.mapping share memory
 	qm, err := mappingQueueManagerMemfd(queuePath, queueFd)
 	if err != nil {
+		// the received descriptors belong to us, nobody else will close them
+		_ = syscall.Close(queueFd)
+		_ = syscall.Close(bufferFd)
 		return err
 	}
 	s.queueManager = qm
 	bm, err := getGlobalBufferManagerWithMemFd(bufferPath, bufferFd, 0, false, nil)
 	if err != nil {
+		_ = syscall.Close(bufferFd)
 		return err
 	}
 
